@@ -9,11 +9,6 @@ import (
 	"github.com/avos-io/goat/gen/goatorepo"
 )
 
-// zzSymName: a 2-byte name with symbolic second byte (lets names coincide or differ).
-func zzSymName(label string, prefix byte) string {
-	return string([]byte{prefix, vfByte(label)})
-}
-
 // H_C16_forward: one forwarding step of a proxy from a proxy state with `peers` attached
 // peers (queue fill levels symbolic via `fill`), for an arbitrary accepted envelope.
 // The envelope must be enqueued exactly once, on the queue of the peer named by the
